@@ -74,6 +74,7 @@ FAMILIES = {
     "C43": ["lockset"],
     "C42": ["catchsched"],
     "C09": ["guard"],
+    "C08": ["opacity"],
     "C05": ["op"],
     "C06": ["op"],
     "C07": ["slice"],
@@ -106,6 +107,8 @@ def units_for(prop, tier):
         us += forward_units(prop)
     if "class" in fams:
         us += class_units(prop)
+    if "opacity" in fams:
+        us.append({"runner": "opacity", "prop": prop, "id": f"opacity-conditions/{prop}"})
     if "guard" in fams:
         us.append({"runner": "guard", "prop": prop, "id": f"guard-conditions/{prop}"})
     if "catchsched" in fams:
